@@ -75,36 +75,60 @@ fn install_hook() {
 }
 
 // ---- watchdog: code under test that does not return (a hang is data, like a panic, but it cannot be caught: the harness
-// writes what it was running to $OQ3V_HANG_FILE and exits with status 3; the check scripts turn that into a violation)
-thread_local! {
-    static CTX: RefCell<String> = const { RefCell::new(String::new()) };
+// writes what it was running to $OQ3V_HANG_FILE and exits with status 3; the check scripts turn that into a violation).
+// Registration must be cheap (guarded() runs ~1e8 times in the exhaustive families): one slot per thread, an atomic start
+// time and an uncontended mutex for the input text.
+struct Slot {
+    start_ms: std::sync::atomic::AtomicU64, // 0 = idle; otherwise ms since process start + 1
+    ctx: std::sync::Mutex<String>,
 }
-static RUNNING: std::sync::Mutex<Option<std::collections::HashMap<std::thread::ThreadId, (std::time::Instant, String)>>> = std::sync::Mutex::new(None);
+static SLOTS: std::sync::OnceLock<Vec<Slot>> = std::sync::OnceLock::new();
+static NEXT_SLOT: std::sync::atomic::AtomicUsize = std::sync::atomic::AtomicUsize::new(0);
+static T0: std::sync::OnceLock<std::time::Instant> = std::sync::OnceLock::new();
 static WATCHDOG: Once = Once::new();
+thread_local! {
+    static MY_SLOT: std::cell::Cell<usize> = const { std::cell::Cell::new(usize::MAX) };
+}
+fn slots() -> &'static Vec<Slot> {
+    SLOTS.get_or_init(|| (0..512).map(|_| Slot { start_ms: std::sync::atomic::AtomicU64::new(0), ctx: std::sync::Mutex::new(String::new()) }).collect())
+}
+fn my_slot() -> &'static Slot {
+    let i = MY_SLOT.with(|c| {
+        if c.get() == usize::MAX {
+            c.set(NEXT_SLOT.fetch_add(1, std::sync::atomic::Ordering::Relaxed) % 512);
+        }
+        c.get()
+    });
+    &slots()[i]
+}
+fn now_ms() -> u64 {
+    T0.get_or_init(std::time::Instant::now).elapsed().as_millis() as u64 + 1
+}
 
 /// Remember the input the next `guarded` calls on this thread work on (reported if one of them never returns).
 pub fn note_input(text: &str) {
-    CTX.with(|c| {
-        let mut c = c.borrow_mut();
-        c.clear();
-        c.push_str(&text.chars().take(2000).collect::<String>());
-    });
+    let mut c = my_slot().ctx.lock().unwrap();
+    c.clear();
+    if text.len() <= 2000 { c.push_str(text) } else { c.extend(text.chars().take(2000)) }
 }
 
 fn start_watchdog() {
     WATCHDOG.call_once(|| {
-        let limit: u64 = std::env::var("OQ3V_HANG_SECS").ok().and_then(|s| s.parse().ok()).unwrap_or(30);
+        let limit_ms: u64 = 1000 * std::env::var("OQ3V_HANG_SECS").ok().and_then(|s| s.parse().ok()).unwrap_or(30u64);
+        let _ = now_ms();
         std::thread::spawn(move || loop {
             std::thread::sleep(std::time::Duration::from_millis(250));
-            let hung = {
-                let g = RUNNING.lock().unwrap();
-                g.as_ref().and_then(|m| m.values().find(|(t, _)| t.elapsed().as_secs() >= limit).map(|(t, c)| (t.elapsed().as_secs(), c.clone())))
-            };
-            if let Some((secs, ctx)) = hung {
-                let path = std::env::var("OQ3V_HANG_FILE").unwrap_or_else(|_| "oq3v_hang.json".into());
-                let _ = std::fs::write(&path, serde_json::to_string(&json!({"hang": true, "secs": secs, "input": ctx})).unwrap());
-                eprintln!("oq3v: the code under test did not return within {secs}s; input written to {path}");
-                std::process::exit(3);
+            let now = now_ms();
+            for s in slots().iter() {
+                let st = s.start_ms.load(std::sync::atomic::Ordering::Relaxed);
+                if st != 0 && now.saturating_sub(st) >= limit_ms {
+                    let ctx = s.ctx.lock().map(|c| c.clone()).unwrap_or_default();
+                    let path = std::env::var("OQ3V_HANG_FILE").unwrap_or_else(|_| "oq3v_hang.json".into());
+                    let secs = (now - st) / 1000;
+                    let _ = std::fs::write(&path, serde_json::to_string(&json!({"hang": true, "secs": secs, "input": ctx})).unwrap());
+                    eprintln!("oq3v: the code under test did not return within {secs}s; input written to {path}");
+                    std::process::exit(3);
+                }
             }
         });
     });
@@ -114,21 +138,15 @@ fn start_watchdog() {
 pub fn guarded<T>(f: impl FnOnce() -> T) -> Result<T, Value> {
     install_hook();
     start_watchdog();
-    let tid = std::thread::current().id();
-    {
-        let ctx = CTX.with(|c| c.borrow().clone());
-        let mut g = RUNNING.lock().unwrap();
-        g.get_or_insert_with(Default::default).insert(tid, (std::time::Instant::now(), ctx));
-    }
-    struct Done(std::thread::ThreadId);
+    let slot = my_slot();
+    slot.start_ms.store(now_ms(), std::sync::atomic::Ordering::Relaxed);
+    struct Done(&'static Slot);
     impl Drop for Done {
         fn drop(&mut self) {
-            if let Ok(mut g) = RUNNING.lock() {
-                if let Some(m) = g.as_mut() { m.remove(&self.0); }
-            }
+            self.0.start_ms.store(0, std::sync::atomic::Ordering::Relaxed);
         }
     }
-    let _done = Done(tid);
+    let _done = Done(slot);
     CAPTURING.with(|c| *c.borrow_mut() = true);
     LAST_PANIC.with(|p| *p.borrow_mut() = None);
     let r = panic::catch_unwind(AssertUnwindSafe(f));
